@@ -23,7 +23,10 @@ Record hcase := mkcase {
   c_nrepr : list (nat * option string); (* observed hash.repr(node) *)
   c_gpanic : list (list bool);      (* observed: per op, per probe: Get panicked (its c_results entry is None) *)
   c_oppanic : list bool;            (* observed: per op: Add* / Remove panicked *)
-  c_final : nat * nat               (* observed len(h.keys), len(h.ring) after the last op *)
+  c_final : nat * nat;              (* observed len(h.keys), len(h.ring) after the last op *)
+  c_unstable : list (nat * nat)     (* observed: (op index, probe index) where two lookups of the same key under the
+                                       same membership (before the next op / repeated after the op; keys holding a
+                                       map: 200 in a row) returned different answers *)
 }.
 
 Definition optnat_eqb := option_eqb Nat.eqb.
@@ -103,6 +106,8 @@ Definition shape_ok (c : hcase) : bool :=
 Definition ring_model_ok (c : hcase) : bool :=
   let cap := cap_of c in
   shape_ok c &&
+  (* get is a function of the state: repeated lookups cannot differ *)
+  match c_unstable c with [] => true | _ => false end &&
   (* lang.Repr as transcribed gives the observed representation of every key and node *)
   all2 (fun k o => repr_eqb (repr k) o) (c_keys c) (c_krepr c) &&
   all2 (fun ng no => Nat.eqb (fst ng) (fst no) && repr_eqb (repr (snd ng)) (snd no)) (c_nodes c) (c_nrepr c) &&
@@ -201,6 +206,8 @@ Definition ring_spec_ok (c : hcase) : bool :=
   let cap := cap_of c in
   let ops := map (to_op cap) (c_ops c) in
   shape_ok c && no_panic_ok c &&
+  (* the same node every time while membership is unchanged *)
+  match c_unstable c with [] => true | _ => false end &&
   forallb (fun row => same_text_row (c_keys c) row []) (c_results c) &&
   spec_rows (vh_of c) cap (c_probes c) [] (map (fun _ => None) (c_probes c)) ops (c_results c) &&
   match c_balance_tol c with
